@@ -77,11 +77,20 @@ func vRefHasToken(values []string, token string) bool {
 	found := false
 	for _, v := range values {
 		for _, t := range strings.Split(strings.TrimSpace(v), ",") {
-			found = vOr(found, strings.EqualFold(strings.TrimSpace(t), token))
+			if vRefAsciiFold {
+				// concrete values: HTTP tokens are ASCII, and so is their case-insensitivity
+				found = vOr(found, vAsciiEqualFold(strings.TrimSpace(t), token))
+			} else {
+				found = vOr(found, strings.EqualFold(strings.TrimSpace(t), token))
+			}
 		}
 	}
 	return found
 }
+
+// vRefAsciiFold: the reference compares tokens with ASCII case folding written out (runs on concrete header values; on
+// symbolic strings the engine's summary of strings.EqualFold is the ASCII one already).
+var vRefAsciiFold bool
 
 func vSymValues(tag string, maxN int) []string {
 	n := vChoose(tag+".n", maxN+1)
@@ -100,6 +109,19 @@ func vSetHeader(h http.Header, key string, vals []string) {
 
 // vSymRequest: an upgrade request whose method, version, and header values are arbitrary strings.
 func vSymRequest(maxVals int) (*http.Request, map[string][]string) {
+	if vParam("foldFocus", 0) == 1 {
+		// everything is a fixed valid upgrade request except the Connection and Upgrade values: concrete token lists in
+		// mixed case, and look-alikes that equal the token only under Unicode case folding (U+017F LONG S, U+212A KELVIN SIGN)
+		vRefAsciiFold = true
+		r := &http.Request{Method: "GET", ProtoMajor: 1, ProtoMinor: 1, Header: http.Header{}, Host: "example.com"}
+		ups := []string{"websocket", "WebSocket", "h2c, WEBSOCKET", "web\u017focket", "websoc\u212aet", "h2c, WEB\u017fOC\u212aET", "websockets"}
+		cons := []string{"Upgrade", "keep-alive, uPGRADE", "keep-alive", "upgrade\u017f"}
+		hv := map[string][]string{"Connection": {cons[vChoose("con", len(cons))]}, "Upgrade": {ups[vChoose("up", len(ups))]}, "Sec-Websocket-Version": {"13"}, "Sec-Websocket-Key": {vConcreteKeys[0]}}
+		for k, v := range hv {
+			vSetHeader(r.Header, k, v)
+		}
+		return r, hv
+	}
 	if vParam("keyFocus", 0) == 1 {
 		// everything but the key is a fixed valid upgrade request; the key is one of the concrete boundary keys, given
 		// once or twice
